@@ -103,3 +103,44 @@ Definition tp_canon (m i p : list N) (q f : option (list N)) : tp_val :=
 Definition tp_transform (base : tp_val) (bm bi : list N) (path' : list N) (query' F : option (list N)) : outcome tp_val did_err :=
   obind (tp_set_path base path') (fun t1 => obind (tp_set_query t1 query') (fun t2 =>
   obind (tp_set_method t2 bm) (fun t3 => obind (tp_set_method_id t3 bi) (fun t4 => tp_set_fragment t4 F)))).
+
+(* ---- DIDUrl::join with the third-party value spelled out: the base is assembled from the receiver's components, the third-party join
+   transforms it, from_base_did_url reads path / query / fragment back through the accessors, hands them to the RelativeDIDUrl setters,
+   clears them on the value and validates what is left as a CoreDID.  did_url_join (Did/DidParse.v) is this function with the third-party
+   value short-circuited; Proofs/TpSettersProofs.v shows the two are the same function. ---- *)
+Definition did_url_join_full (u : did_url) (seg : list N) : outcome did_url did_err :=
+  match seg with
+  | c :: _ =>
+    if negb ((c =? 47) || (c =? 63) || (c =? 35)) then Err EPath else
+    let bp := oapp (u_path u) in
+    let bq := match u_query u with Some q => Some (strip1 63 q) | None => None end in
+    let bf := match u_frag u with Some f => Some (strip1 35 f) | None => None end in
+    obind (tp_assemble_did (u_method u) (u_mid u)) (fun t0 =>
+    obind (tp_set_path t0 bp) (fun t1 => obind (tp_set_query t1 bq) (fun t2 => obind (tp_set_fragment t2 bf) (fun base =>
+    obind (tp_rel_offsets seg) (fun rc =>
+    obind (tp_path seg rc) (fun P =>
+    obind (tp_query seg rc) (fun Q =>
+    obind (tp_fragment seg rc) (fun F =>
+    obind (tp_path (t_data base) (t_core base)) (fun base_path =>
+    obind (tp_query (t_data base) (t_core base)) (fun base_query =>
+    obind (tp_method (t_data base) (t_core base)) (fun bm =>
+    obind (tp_method_id (t_data base) (t_core base)) (fun bi =>
+    let path' := if is_nil P then base_path
+                 else if (match P with x :: _ => x =? 47 | [] => false end) then remove_dot_segments P
+                 else remove_dot_segments (merge_paths base_path P) in
+    let query' := if is_nil P then (match Q with Some q => Some q | None => base_query end) else Q in
+    obind (tp_transform base bm bi path' query' F) (fun T =>
+    (* from_base_did_url *)
+    obind (tp_path (t_data T) (t_core T)) (fun tpath =>
+    obind (tp_query (t_data T) (t_core T)) (fun tquery =>
+    obind (tp_fragment (t_data T) (t_core T)) (fun tfrag =>
+    obind (set_path (Some tpath)) (fun up =>
+    obind (set_query (match tquery with Some x => Some (63 :: x) | None => None end)) (fun uq =>
+    obind (set_fragment (match tfrag with Some x => Some (35 :: x) | None => None end)) (fun uf =>
+    obind (tp_set_path T []) (fun T1 => obind (tp_set_query T1 None) (fun T2 => obind (tp_set_fragment T2 None) (fun T3 =>
+    obind (tp_method (t_data T3) (t_core T3)) (fun dm =>
+    obind (tp_method_id (t_data T3) (t_core T3)) (fun di =>
+    if negb (valid_method_name dm) || negb (valid_method_id di) then Err EOther else
+    Ok {| u_did := t_data T3; u_method := dm; u_mid := di; u_path := up; u_query := uq; u_frag := uf |}))))))))))))))))))))))))
+  | [] => Err EPath
+  end.
